@@ -234,6 +234,7 @@ def run_case(case):
             obs["states"].append({"k": k, "snap": st, "listing": _reader(S, ud)})
         return obs
     finally:
+        _LISTINGS.clear()
         common.rmtree(R)
 
 
@@ -249,9 +250,28 @@ def _mark_own_tmp(st, init):
     return {**st, "files": out}
 
 
+_LISTINGS = {}
+
+
+def _dir_digest(db):
+    """Names and bytes of everything in the database directory (the reader's input)."""
+    items = []
+    for d, dirs, files in os.walk(db):
+        dirs.sort()
+        items.append(os.path.relpath(d, db))
+        for f in sorted(files):
+            with open(os.path.join(d, f), "rb") as fh:
+                items.append((os.path.relpath(os.path.join(d, f), db), fh.read()))
+    return common.digest(repr(items))
+
+
 def _reader(S, ud):
-    r = common.in_child(_child_read, S, ud)
-    return r[1] if r[0] == "ok" else "EXC:child " + str(r[1])
+    """The listing of a fresh reader; one reader process per distinct content of the database directory."""
+    key = (S, _dir_digest(os.path.join(S, "ups_db")))
+    if key not in _LISTINGS:
+        r = common.in_child(_child_read, S, ud)
+        _LISTINGS[key] = r[1] if r[0] == "ok" else "EXC:child " + str(r[1])
+    return _LISTINGS[key]
 
 
 # ---- canonical forms -----------------------------------------------------------------------------------------
@@ -525,10 +545,10 @@ def run(ctx):
     ctx.hist("corpus", len(cc))
     if cc:
         evaluate(ctx, cc)
-    nstates = ctx.n(30, 400)
+    nstates = ctx.n(24, 400)
     done = 0
     while done < nstates and not ctx.out_of_time():
-        evaluate(ctx, gen_cases(ctx.rng, 6, ctx.n(10, 24)))
+        evaluate(ctx, gen_cases(ctx.rng, 6, ctx.n(8, 24)))
         done += 6
     if ctx.evaluations and ctx.distinct_nontrivial < 20:
         raise common.InfraError("degenerate distribution: %d commands with effects" % ctx.distinct_nontrivial)
